@@ -410,7 +410,8 @@ func (p *parser) postfix(x SExpr) SExpr {
 			x = SSelector{x, n.s}
 		case p.isOp("["):
 			p.next()
-			if p.accept("*") {
+			if p.isOp("*") && p.p+1 < len(p.toks) && p.toks[p.p+1].k == "op" && p.toks[p.p+1].s == "]" {
+				p.next()
 				p.expect("]")
 				x = SIndex{x, SIdent{"*"}}
 				continue
@@ -438,13 +439,13 @@ func (p *parser) postfix(x SExpr) SExpr {
 // ---------------------------------------------------------------- contracts
 
 type Clause struct {
-	Label string
-	Text  string
-	E     SExpr
-	File  string
-	Line  int
-	Props []string // property ids this clause is claimed for (empty: all of the function's)
-	Internal bool  // `proves`: an obligation of the function's own proof (may mention its locals), not exported to callers
+	Label    string
+	Text     string
+	E        SExpr
+	File     string
+	Line     int
+	Props    []string // property ids this clause is claimed for (empty: all of the function's)
+	Internal bool     // `proves`: an obligation of the function's own proof (may mention its locals), not exported to callers
 }
 
 type GhostSet struct {
@@ -466,35 +467,35 @@ type CallAssert struct {
 }
 
 type Contract struct {
-	Key        string // function key: "<pkgpath> <relname>" or external full name
-	Pkg        string
-	Safe       bool
-	Inline     bool
-	Pure       bool
-	Trusted    bool // contract assumed, body not verified
-	NoBody     bool
-	Props      []string
-	Requires   []Clause
-	Ensures    []Clause
-	Modifies   []SExpr
-	HasMod     bool
-	ModAll     bool
-	Ghost      []GhostSet
-	Loops      map[int]*LoopSpec
-	CallAssert []CallAssert
-	Assumes    []Clause
-	Witness    map[string]SExpr // existential witnesses for this function's own proof
-	Uses       map[string][]string // ensures label -> label prefixes of earlier ensures assumed when proving it
-	Fresh      bool   // result is a freshly allocated object
-	Reads      string // for pure: "" (by type), "none", "all"
-	File       string
-	Line       int
-	Why        string
+	Key         string // function key: "<pkgpath> <relname>" or external full name
+	Pkg         string
+	Safe        bool
+	Inline      bool
+	Pure        bool
+	Trusted     bool // contract assumed, body not verified
+	NoBody      bool
+	Props       []string
+	Requires    []Clause
+	Ensures     []Clause
+	Modifies    []SExpr
+	HasMod      bool
+	ModAll      bool
+	Ghost       []GhostSet
+	Loops       map[int]*LoopSpec
+	CallAssert  []CallAssert
+	Assumes     []Clause
+	Witness     map[string]SExpr    // existential witnesses for this function's own proof
+	Uses        map[string][]string // ensures label -> label prefixes of earlier ensures assumed when proving it
+	Fresh       bool                // result is a freshly allocated object
+	Reads       string              // for pure: "" (by type), "none", "all"
+	File        string
+	Line        int
+	Why         string
 	IntOverflow bool
-	EMatch      bool // wrap element index sums in ix() for arithmetic-free triggers
-	Extern      bool // contract of a function outside the package of the file
+	EMatch      bool         // wrap element index sums in ix() for arithmetic-free triggers
+	Extern      bool         // contract of a function outside the package of the file
 	Unreachable map[int]bool // return sites (ordinals) known to be dead code
-	DynMod      []SExpr // assumed modifies set of calls through function values (callbacks)
+	DynMod      []SExpr      // assumed modifies set of calls through function values (callbacks)
 	HasDynMod   bool
 }
 
@@ -1016,4 +1017,146 @@ func splitConj(e SExpr) []SExpr {
 		}
 	}
 	return []SExpr{e}
+}
+
+// substExpr replaces free identifiers of e by the expressions in m (bound
+// variables of quantifiers shadow).
+func substExpr(e SExpr, m map[string]SExpr) SExpr {
+	switch x := e.(type) {
+	case SIdent:
+		if r, ok := m[x.Name]; ok {
+			return r
+		}
+		return x
+	case SUnary:
+		return SUnary{x.Op, substExpr(x.X, m)}
+	case SBinary:
+		return SBinary{x.Op, substExpr(x.X, m), substExpr(x.Y, m)}
+	case STernary:
+		return STernary{substExpr(x.C, m), substExpr(x.A, m), substExpr(x.B, m)}
+	case SCall:
+		args := make([]SExpr, len(x.Args))
+		for i, a := range x.Args {
+			args[i] = substExpr(a, m)
+		}
+		return SCall{x.Fun, args}
+	case SSelector:
+		return SSelector{substExpr(x.X, m), x.Name}
+	case SIndex:
+		return SIndex{substExpr(x.X, m), substExpr(x.I, m)}
+	case SSlice:
+		var lo, hi SExpr
+		if x.Lo != nil {
+			lo = substExpr(x.Lo, m)
+		}
+		if x.Hi != nil {
+			hi = substExpr(x.Hi, m)
+		}
+		return SSlice{substExpr(x.X, m), lo, hi}
+	case SQuant:
+		m2 := map[string]SExpr{}
+		for k, v := range m {
+			m2[k] = v
+		}
+		for _, v := range x.Vars {
+			delete(m2, v.Name)
+		}
+		return SQuant{x.Forall, x.Vars, substExpr(x.Body, m2)}
+	case SCast:
+		return SCast{x.Type, substExpr(x.X, m)}
+	case SDeref:
+		return SDeref{substExpr(x.X, m)}
+	case SAddrOf:
+		return SAddrOf{substExpr(x.X, m)}
+	}
+	return e
+}
+
+// mentionsOld reports whether e contains old(...), atcall(...) or a quantifier
+// binding one of the names (in which case syntactic expansion is not used).
+func mentionsOld(e SExpr) bool {
+	found := false
+	var walk func(e SExpr)
+	walk = func(e SExpr) {
+		switch x := e.(type) {
+		case SUnary:
+			walk(x.X)
+		case SBinary:
+			walk(x.X)
+			walk(x.Y)
+		case STernary:
+			walk(x.C)
+			walk(x.A)
+			walk(x.B)
+		case SCall:
+			if x.Fun == "old" || x.Fun == "atcall" {
+				found = true
+			}
+			for _, a := range x.Args {
+				walk(a)
+			}
+		case SSelector:
+			walk(x.X)
+		case SIndex:
+			walk(x.X)
+			walk(x.I)
+		case SSlice:
+			walk(x.X)
+			if x.Lo != nil {
+				walk(x.Lo)
+			}
+			if x.Hi != nil {
+				walk(x.Hi)
+			}
+		case SQuant:
+			walk(x.Body)
+		case SCast:
+			walk(x.X)
+		case SDeref:
+			walk(x.X)
+		case SAddrOf:
+			walk(x.X)
+		}
+	}
+	walk(e)
+	return found
+}
+
+// splitConjMacro is splitConj that also opens a conjunct that is a call of a
+// user spec function whose body is a conjunction (one obligation per
+// conjunct of the predicate instead of one for the whole predicate).
+func splitConjMacro(e SExpr, lookup func(name string) *SpecFunc) []SExpr {
+	var out []SExpr
+	for _, p := range splitConj(e) {
+		head, body := SExpr(nil), p
+		if b, ok := p.(SBinary); ok && b.Op == "==>" {
+			head, body = b.X, b.Y
+		}
+		if c, ok := body.(SCall); ok {
+			if sf := lookup(c.Fun); sf != nil && len(sf.Params) == len(c.Args) && !mentionsOld(sf.Body) {
+				argsOld := false
+				for _, a := range c.Args {
+					if mentionsOld(a) {
+						argsOld = true
+					}
+				}
+				if parts := splitConj(sf.Body); len(parts) > 1 && !argsOld {
+					m := map[string]SExpr{}
+					for i, prm := range sf.Params {
+						m[prm.Name] = c.Args[i]
+					}
+					for _, q := range parts {
+						var one SExpr = substExpr(q, m)
+						if head != nil {
+							one = SBinary{"==>", head, one}
+						}
+						out = append(out, splitConjMacro(one, lookup)...)
+					}
+					continue
+				}
+			}
+		}
+		out = append(out, p)
+	}
+	return out
 }
